@@ -23,28 +23,33 @@ func VerifH_C04_pool() {
 	held := map[*Event]bool{}
 	nHeld := 0
 	done := 0
-	for r := 0; r < readers; r++ {
-		go func() {
-			e := pl.get(1)
-			vf.Atomic(func() {
-				vf.Assert(!held[e], "event-not-handed-out-twice")
-				held[e] = true
-				nHeld++
-				vf.Assert(nHeld <= capacity, "in-flight-within-capacity")
-				if nHeld == capacity {
-					vf.Reach("pool-full")
-				}
-			})
-			vf.Yield() // the event travels through the pipeline
-			vf.Atomic(func() {
-				delete(held, e)
-				nHeld--
-			})
-			pl.back(e)
-			done++
-		}()
+	waves := vf.Param("waves", 1)
+	for wv := 0; wv < waves; wv++ {
+		// a later wave starts after the pool has been idle for two heart-beat periods
+		for r := 0; r < readers; r++ {
+			go func() {
+				e := pl.get(1)
+				vf.Atomic(func() {
+					vf.Assert(!held[e], "event-not-handed-out-twice")
+					held[e] = true
+					nHeld++
+					vf.Assert(nHeld <= capacity, "in-flight-within-capacity")
+					if nHeld == capacity {
+						vf.Reach("pool-full")
+					}
+				})
+				vf.Yield() // the event travels through the pipeline
+				vf.Atomic(func() {
+					delete(held, e)
+					nHeld--
+				})
+				pl.back(e)
+				done++
+			}()
+		}
+		vf.Quiesce(vf.Param("QUIET_MS", 11000)) // two pool heart-beat periods (5 s) without any other activity
 	}
-	vf.Quiesce(vf.Param("QUIET_MS", 11000)) // two pool heart-beat periods (5 s) without any other activity
+	readers *= waves
 	if twin {
 		vf.Assert(done != readers, "every-reader-resumed")
 		return
